@@ -1,10 +1,19 @@
-//! Contract-model of the part of `rand 0.8` that volute uses:
-//! `rand::thread_rng().next_u64()` returns the next element of an arbitrary sequence.
+//! Contract-model of the part of `rand 0.8` that volute uses (C19):
+//! `rand::thread_rng().next_u64()` returns the next element of an arbitrary (harness-controlled) sequence and counts
+//! the calls.  `Rng::gen` / `gen_range` are modelled on top of it (one draw each; any value of the range may result),
+//! so that a change of the library to those entry points still builds and is judged against the same triple.
 pub static mut SEQ: [u64; 512] = [0; 512];
 pub static mut CALLS: usize = 0;
-pub trait RngCore { fn next_u64(&mut self) -> u64; }
+pub trait RngCore {
+    fn next_u64(&mut self) -> u64;
+    fn next_u32(&mut self) -> u32 {
+        self.next_u64() as u32
+    }
+}
 pub struct ThreadRng;
-pub fn thread_rng() -> ThreadRng { ThreadRng }
+pub fn thread_rng() -> ThreadRng {
+    ThreadRng
+}
 impl RngCore for ThreadRng {
     fn next_u64(&mut self) -> u64 {
         unsafe {
@@ -13,4 +22,37 @@ impl RngCore for ThreadRng {
             SEQ[i]
         }
     }
+}
+pub trait SampleRange {
+    fn sample(self, draw: u64) -> u64;
+}
+impl SampleRange for core::ops::Range<u64> {
+    fn sample(self, draw: u64) -> u64 {
+        assert!(self.start < self.end, "cannot sample empty range");
+        self.start + draw % (self.end - self.start)
+    }
+}
+impl SampleRange for core::ops::RangeInclusive<u64> {
+    fn sample(self, draw: u64) -> u64 {
+        let (a, b) = (*self.start(), *self.end());
+        assert!(a <= b, "cannot sample empty range");
+        if a == 0 && b == u64::MAX {
+            draw
+        } else {
+            a + draw % (b - a + 1)
+        }
+    }
+}
+pub trait Rng: RngCore {
+    fn gen_range<R: SampleRange>(&mut self, range: R) -> u64 {
+        let d = self.next_u64();
+        range.sample(d)
+    }
+    fn gen_u64(&mut self) -> u64 {
+        self.next_u64()
+    }
+}
+impl<T: RngCore> Rng for T {}
+pub mod prelude {
+    pub use super::{thread_rng, Rng, RngCore, ThreadRng};
 }
